@@ -1,6 +1,7 @@
 import Pyunicorn.Lemmas.Access
 import Pyunicorn.Lemmas.WhileSafe
 import Pyunicorn.Lemmas.Binary64
+import Pyunicorn.Lemmas.LineIdx
 import Pyunicorn.Generated.StructC20
 import Pyunicorn.Generated.StructC20Pyx
 import Pyunicorn.Generated.StructC20Py
@@ -1309,3 +1310,194 @@ theorem miObjCall_selfN_oob_witness :
   decide +kernel
 
 end Pyunicorn.Access
+
+
+/-! # Round 4: `_line_dist` — the data-dependent subscripts of all RQA line histograms
+
+`Model/LineIdx.lean` lists every buffer subscript `_line_dist` evaluates, in program order, for an
+arbitrary recurrence predicate and an arbitrary missing-value mask; loop skeleton, index functions
+(`i2J_*`, `ij2I_*`) and the nine wrappers' arguments are the generated definitions. -/
+namespace Pyunicorn.LineIdx
+open Pyunicorn.Generated.StructC20Py
+
+/-- the model covers exactly the subscripts that occur in the source of `_line_dist` and of
+`metric_supremum` (a further subscript in the source breaks this) -/
+theorem line_dist_subscripts_covered :
+    ld_subscripts = [("M", "I"), ("M", "j"), ("R", "I, j"), ("hist", "k-1")]
+    ∧ ld_metric_loops = [("l", "dim")]
+    ∧ ld_metric_subscripts = [("E", "I, l"), ("E", "j, l")]
+    ∧ line_dist_wrappers.map (·.name) =
+      ["_vertline_dist", "_diagline_dist", "_white_vertline_dist", "_vertline_dist_sequential",
+       "_diagline_dist_sequential", "_vertline_dist_missingvalues", "_diagline_dist_missingvalues",
+       "_vertline_dist_sequential_missingvalues", "_diagline_dist_sequential_missingvalues"] := by
+  refine ⟨by decide, by decide, by decide, by decide⟩
+
+/-- the index functions each of the nine wrappers passes keep row and column inside `[0, n_time)`
+and the inner loop within `n_time` iterations — for **every** `n_time` (vertical lines: `I = i`,
+`j < N = n_time`; diagonals: `N = n_time - 1`, `j ≤ i < N`, `1 ≤ I = N - i + j ≤ N`) -/
+theorem geo_of_wrapper (w : LDWrap) (hw : w ∈ line_dist_wrappers) (n : Int) : Geo w n := by
+  simp only [line_dist_wrappers, List.mem_cons, List.not_mem_nil, or_false] at hw
+  rcases hw with rfl | rfl | rfl | rfl | rfl | rfl | rfl | rfl | rfl <;>
+  · intro i hi0 hi
+    simp only [ld_outer, ld_N, ld_inner, ld_I, i2J_vertline, i2J_diagline, ij2I_vertline,
+      ij2I_diagline, Bool.false_eq_true, if_false, if_true] at hi ⊢
+    refine ⟨by omega, by omega, ?_⟩
+    intro j hj0 hj
+    omega
+
+/-- **every subscript `_line_dist` evaluates is inside its buffer**, for each of the nine wrappers,
+every `n_time`, every embedding dimension, every recurrence matrix / embedding content (`line`) and
+every missing-value mask (`miss`): `R[I, j]` with `I, j ∈ [0, n_time)` (only for `dim = 0`),
+`E[I, l]`, `E[j, l]` with `l ∈ [0, dim)` (only for `dim ≠ 0`), `M[I]`, `M[j]` (only with
+missing-value handling) and `hist[k-1] ∈ [0, n_time)` — the line length `k` never exceeds the number
+of points visited in the current row, and a raised `missing_flag` means `k = 0`.  So these
+subscripts never raise IndexError on the public path and would be safe without the bounds check. -/
+theorem lineDist_in_bounds (w : LDWrap) (hw : w ∈ line_dist_wrappers) (n_time dim : Int)
+    (line : Int → Int → Bool) (miss : Int → Bool) :
+    ∀ e ∈ (lineDist w n_time dim line miss).1, e.within w.mv n_time dim := by
+  unfold lineDist
+  exact (outer_spec (n := n_time) (dim := dim) w (geo_of_wrapper w hw n_time) line miss _
+    (fun i hi => mem_ints.mp hi)).1
+
+/-- after the kernel `k = 0` and `missing_flag = False` (nothing is left uncounted) -/
+theorem lineDist_final_state (w : LDWrap) (hw : w ∈ line_dist_wrappers) (n_time dim : Int)
+    (line : Int → Int → Bool) (miss : Int → Bool) :
+    (lineDist w n_time dim line miss).2 = ⟨0, false⟩ := by
+  unfold lineDist
+  exact (outer_spec (n := n_time) (dim := dim) w (geo_of_wrapper w hw n_time) line miss _
+    (fun i hi => mem_ints.mp hi)).2
+
+/-- with buffers of the extents the Python callers pass (`hist`: `n_time`; `R`: `n_time × n_time`
+in matrix mode; `E`: `n_time × dim` in sequential mode; `M`: `n_time` with missing values — the
+`*_null` arrays of the wrappers are never subscripted) the executable model never answers
+IndexError, whatever the buffers contain -/
+theorem lineDist_never_raises (w : LDWrap) (hw : w ∈ line_dist_wrappers) (n_time dim : Int) (x : Ext)
+    (Rm Em : List (List Int)) (eps2 : Int) (Mm : List Int)
+    (hh : n_time ≤ x.h0) (hR : dim = 0 → n_time ≤ x.r0 ∧ n_time ≤ x.r1)
+    (hE : dim ≠ 0 → n_time ≤ x.e0 ∧ dim ≤ x.e1) (hM : w.mv = true → n_time ≤ x.m0) :
+    outcome w n_time dim x Rm Em eps2 Mm ≠ none := by
+  unfold outcome
+  dsimp only
+  rw [if_pos]
+  · simp
+  rw [List.all_eq_true]
+  intro e he
+  have h := lineDist_in_bounds w hw n_time dim _ _ e he
+  cases e with
+  | R I j =>
+    obtain ⟨hd, a, b, c, d⟩ := h
+    obtain ⟨r0, r1⟩ := hR hd
+    simp only [Ev.ok, inr, Bool.and_eq_true, decide_eq_true_eq]
+    omega
+  | M i =>
+    obtain ⟨hm, a, b⟩ := h
+    have := hM hm
+    simp only [Ev.ok, inr, Bool.and_eq_true, decide_eq_true_eq]
+    omega
+  | E r c =>
+    obtain ⟨hd, a, b, c', d⟩ := h
+    obtain ⟨e0, e1⟩ := hE hd
+    simp only [Ev.ok, inr, Bool.and_eq_true, decide_eq_true_eq]
+    omega
+  | H i =>
+    obtain ⟨a, b⟩ := h
+    simp only [Ev.ok, inr, Bool.and_eq_true, decide_eq_true_eq]
+    omega
+
+
+/-! ### the nine wrappers under the contracts of `translate/c20_contracts.json`
+
+(what `recurrence_plot.py` passes; validated on every observed call).  The buffers a wrapper does
+not receive are its own `*_null` arrays of shape `(1, 0)` / `(0,)`. -/
+open Pyunicorn.Generated.StructC20Pyx in
+theorem ldw_length : line_dist_wrappers.length = 9 := by decide
+open Pyunicorn.Generated.StructC20Pyx in
+/-- `_vertline_dist` never raises IndexError under its contract, whatever its buffers contain -/
+theorem ts_vertline_dist_fine (v : String → Int) (h : ts_vertline_dist_contract v)
+    (Rm Em : List (List Int)) (eps2 : Int) (Mm : List Int) :
+    outcome (line_dist_wrappers[0]'(by rw [ldw_length]; omega)) (v "n_time") (0)
+      ⟨v "R_0", v "R_1", 0, 1, 0, v "hist_0"⟩ Rm Em eps2 Mm ≠ none := by
+  obtain ⟨h1, h2, h3⟩ := h
+  exact lineDist_never_raises _ (List.getElem_mem _) _ _ _ _ _ _ _ h1 (fun _ => ⟨h2, h3⟩) (fun hd => absurd rfl hd) (fun hm => by simp [line_dist_wrappers] at hm)
+open Pyunicorn.Generated.StructC20Pyx in
+/-- `_diagline_dist` never raises IndexError under its contract, whatever its buffers contain -/
+theorem ts_diagline_dist_fine (v : String → Int) (h : ts_diagline_dist_contract v)
+    (Rm Em : List (List Int)) (eps2 : Int) (Mm : List Int) :
+    outcome (line_dist_wrappers[1]'(by rw [ldw_length]; omega)) (v "n_time") (0)
+      ⟨v "R_0", v "R_1", 0, 1, 0, v "hist_0"⟩ Rm Em eps2 Mm ≠ none := by
+  obtain ⟨h1, h2, h3⟩ := h
+  exact lineDist_never_raises _ (List.getElem_mem _) _ _ _ _ _ _ _ h1 (fun _ => ⟨h2, h3⟩) (fun hd => absurd rfl hd) (fun hm => by simp [line_dist_wrappers] at hm)
+open Pyunicorn.Generated.StructC20Pyx in
+/-- `_white_vertline_dist` never raises IndexError under its contract, whatever its buffers contain -/
+theorem ts_white_vertline_dist_fine (v : String → Int) (h : ts_white_vertline_dist_contract v)
+    (Rm Em : List (List Int)) (eps2 : Int) (Mm : List Int) :
+    outcome (line_dist_wrappers[2]'(by rw [ldw_length]; omega)) (v "n_time") (0)
+      ⟨v "R_0", v "R_1", 0, 1, 0, v "hist_0"⟩ Rm Em eps2 Mm ≠ none := by
+  obtain ⟨h1, h2, h3⟩ := h
+  exact lineDist_never_raises _ (List.getElem_mem _) _ _ _ _ _ _ _ h1 (fun _ => ⟨h2, h3⟩) (fun hd => absurd rfl hd) (fun hm => by simp [line_dist_wrappers] at hm)
+open Pyunicorn.Generated.StructC20Pyx in
+/-- `_vertline_dist_sequential` never raises IndexError under its contract, whatever its buffers contain -/
+theorem ts_vertline_dist_sequential_fine (v : String → Int) (h : ts_vertline_dist_sequential_contract v)
+    (Rm Em : List (List Int)) (eps2 : Int) (Mm : List Int) :
+    outcome (line_dist_wrappers[3]'(by rw [ldw_length]; omega)) (v "n_time") (v "dim")
+      ⟨1, 0, 0, v "E_0", v "E_1", v "hist_0"⟩ Rm Em eps2 Mm ≠ none := by
+  obtain ⟨h1, h2, h3, h4⟩ := h
+  exact lineDist_never_raises _ (List.getElem_mem _) _ _ _ _ _ _ _ h1 (fun hd => by omega) (fun _ => ⟨h2, h3⟩) (fun hm => by simp [line_dist_wrappers] at hm)
+open Pyunicorn.Generated.StructC20Pyx in
+/-- `_diagline_dist_sequential` never raises IndexError under its contract, whatever its buffers contain -/
+theorem ts_diagline_dist_sequential_fine (v : String → Int) (h : ts_diagline_dist_sequential_contract v)
+    (Rm Em : List (List Int)) (eps2 : Int) (Mm : List Int) :
+    outcome (line_dist_wrappers[4]'(by rw [ldw_length]; omega)) (v "n_time") (v "dim")
+      ⟨1, 0, 0, v "E_0", v "E_1", v "hist_0"⟩ Rm Em eps2 Mm ≠ none := by
+  obtain ⟨h1, h2, h3, h4⟩ := h
+  exact lineDist_never_raises _ (List.getElem_mem _) _ _ _ _ _ _ _ h1 (fun hd => by omega) (fun _ => ⟨h2, h3⟩) (fun hm => by simp [line_dist_wrappers] at hm)
+open Pyunicorn.Generated.StructC20Pyx in
+/-- `_vertline_dist_missingvalues` never raises IndexError under its contract, whatever its buffers contain -/
+theorem ts_vertline_dist_missingvalues_fine (v : String → Int) (h : ts_vertline_dist_missingvalues_contract v)
+    (Rm Em : List (List Int)) (eps2 : Int) (Mm : List Int) :
+    outcome (line_dist_wrappers[5]'(by rw [ldw_length]; omega)) (v "n_time") (0)
+      ⟨v "R_0", v "R_1", v "M_0", 1, 0, v "hist_0"⟩ Rm Em eps2 Mm ≠ none := by
+  obtain ⟨h1, h2, h3, h4⟩ := h
+  exact lineDist_never_raises _ (List.getElem_mem _) _ _ _ _ _ _ _ h1 (fun _ => ⟨h2, h3⟩) (fun hd => absurd rfl hd) (fun _ => h4)
+open Pyunicorn.Generated.StructC20Pyx in
+/-- `_diagline_dist_missingvalues` never raises IndexError under its contract, whatever its buffers contain -/
+theorem ts_diagline_dist_missingvalues_fine (v : String → Int) (h : ts_diagline_dist_missingvalues_contract v)
+    (Rm Em : List (List Int)) (eps2 : Int) (Mm : List Int) :
+    outcome (line_dist_wrappers[6]'(by rw [ldw_length]; omega)) (v "n_time") (0)
+      ⟨v "R_0", v "R_1", v "M_0", 1, 0, v "hist_0"⟩ Rm Em eps2 Mm ≠ none := by
+  obtain ⟨h1, h2, h3, h4⟩ := h
+  exact lineDist_never_raises _ (List.getElem_mem _) _ _ _ _ _ _ _ h1 (fun _ => ⟨h2, h3⟩) (fun hd => absurd rfl hd) (fun _ => h4)
+open Pyunicorn.Generated.StructC20Pyx in
+/-- `_vertline_dist_sequential_missingvalues` never raises IndexError under its contract, whatever its buffers contain -/
+theorem ts_vertline_dist_sequential_missingvalues_fine (v : String → Int) (h : ts_vertline_dist_sequential_missingvalues_contract v)
+    (Rm Em : List (List Int)) (eps2 : Int) (Mm : List Int) :
+    outcome (line_dist_wrappers[7]'(by rw [ldw_length]; omega)) (v "n_time") (v "dim")
+      ⟨1, 0, v "M_0", v "E_0", v "E_1", v "hist_0"⟩ Rm Em eps2 Mm ≠ none := by
+  obtain ⟨h1, h2, h3, h4, h5⟩ := h
+  exact lineDist_never_raises _ (List.getElem_mem _) _ _ _ _ _ _ _ h1 (fun hd => by omega) (fun _ => ⟨h2, h3⟩) (fun _ => h5)
+open Pyunicorn.Generated.StructC20Pyx in
+/-- `_diagline_dist_sequential_missingvalues` never raises IndexError under its contract, whatever its buffers contain -/
+theorem ts_diagline_dist_sequential_missingvalues_fine (v : String → Int) (h : ts_diagline_dist_sequential_missingvalues_contract v)
+    (Rm Em : List (List Int)) (eps2 : Int) (Mm : List Int) :
+    outcome (line_dist_wrappers[8]'(by rw [ldw_length]; omega)) (v "n_time") (v "dim")
+      ⟨1, 0, v "M_0", v "E_0", v "E_1", v "hist_0"⟩ Rm Em eps2 Mm ≠ none := by
+  obtain ⟨h1, h2, h3, h4, h5⟩ := h
+  exact lineDist_never_raises _ (List.getElem_mem _) _ _ _ _ _ _ _ h1 (fun hd => by omega) (fun _ => ⟨h2, h3⟩) (fun _ => h5)
+
+/-- `_vertline_dist`, `_diagline_dist` as generated -/
+def ldVert : LDWrap := ⟨"_vertline_dist", i2J_vertline, ij2I_vertline, false, false, false, true, ("", "")⟩
+def ldDiag : LDWrap := ⟨"_diagline_dist", i2J_diagline, ij2I_diagline, true, false, false, true, ("", "")⟩
+
+/-- non-vacuity: the diagonal kernel on a 3 × 3 all-recurrent matrix visits `R[2, 0]`, `R[1, 0]`,
+`R[2, 1]` and counts lines of lengths 1 and 2 -/
+example : (lineDist ldDiag 3 0 (fun _ _ => true) (fun _ => false)).1
+    = [.R 2 0, .H 0, .R 1 0, .R 2 1, .H 1] := by decide +kernel
+/-- sharpness: a histogram one entry short, or an index function shifted by one, is an IndexError -/
+example : outcome ldVert 2 0 ⟨2, 2, 0, 1, 0, 1⟩ [[1, 1], [1, 1]] [] 0 []
+    = none := by decide +kernel
+example : outcome ldVert 2 0 ⟨2, 2, 0, 1, 0, 2⟩ [[1, 1], [1, 1]] [] 0 []
+    = some [0, 2] := by decide +kernel
+example : outcome { ldDiag with ij2I := fun i j N => N - i + j + 1 }
+    3 0 ⟨3, 3, 0, 1, 0, 3⟩ [[1, 1, 1], [1, 1, 1], [1, 1, 1]] [] 0 [] = none := by decide +kernel
+
+end Pyunicorn.LineIdx
